@@ -1414,8 +1414,11 @@ def b_map(it, args, kw, node):
         return MList([it.call(f, [x], {}, node) for x in items])
     seq = it.to_seq(src)
     out = MList()
-    it.generic_loop(seq, lambda e: None, lambda: None, I.Env())
-    raise Unsupported('map over symbolic sequence')
+    env = I.Env()
+    holder = {}
+    it.generic_loop(seq, lambda e: holder.__setitem__('x', e),
+                    lambda: it.list_append(out, it.call(f, [holder['x']], {}, node)), env)
+    return out
 
 
 def b_filter(it, args, kw, node):
